@@ -470,9 +470,18 @@ type c07Case struct {
 	cur     *c07Ledger
 	nextPod int
 	gone    []int
+	nname   string // node name ("" = c07Node); the multi-node harness runs one c07Case per node on a shared cache
+	wellPlanned bool // the Device object carries the label secondary-device-well-planned=true
 }
 
-func (c *c07Case) nd() *nodeDevice { return c.cache.getNodeDevice(c07Node, false) }
+func (c *c07Case) nodeName() string {
+	if c.nname != "" {
+		return c.nname
+	}
+	return c07Node
+}
+
+func (c *c07Case) nd() *nodeDevice { return c.cache.getNodeDevice(c.nodeName(), false) }
 
 func (c *c07Case) emitLedger() *c07Ledger {
 	l := c07Read(c.nd())
@@ -735,7 +744,10 @@ func (c *c07Case) genDevRes(t int) c07Vec {
 
 func (c *c07Case) applyInventory(invalidate bool) {
 	h := c.h
-	dev := &schedulingv1alpha1.Device{ObjectMeta: metav1.ObjectMeta{Name: c07Node}}
+	dev := &schedulingv1alpha1.Device{ObjectMeta: metav1.ObjectMeta{Name: c.nodeName()}}
+	if c.wellPlanned {
+		dev.Labels = map[string]string{apiext.LabelSecondaryDeviceWellPlanned: "true"}
+	}
 	var toks []string
 	n := 0
 	for t := 0; t < 3; t++ {
@@ -762,7 +774,7 @@ func (c *c07Case) applyInventory(invalidate bool) {
 			c.cache.invalidateNodeDevice(dev)
 			h.Tag("entry:invalidateNodeDevice")
 		} else {
-			c.cache.updateNodeDevice(c07Node, dev)
+			c.cache.updateNodeDevice(c.nodeName(), dev)
 			h.Tag("entry:updateNodeDevice")
 			for t := 0; t < 3; t++ {
 				c.infoMin[t] = nil
@@ -2599,7 +2611,8 @@ func c07Book(nd *nodeDevice) string {
 type c07EvPod struct {
 	id  int
 	g   c07Groups
-	rsv int // reservation (reserve-pod id) the pod is an owner of; 0 = none
+	rsv int     // reservation (reserve-pod id) the pod is an owner of; 0 = none
+	na  c07NAnn // extension 3: the annotation BY NAME as it sits in the API (deprecated / current resource names); g = its meaning
 }
 
 type c07EvRsv struct {
@@ -2624,6 +2637,32 @@ type c07EvCase struct {
 	rsvs    []*c07EvRsv
 	nextRsv int
 	roSteps int
+	txf     cache.TransformFunc // extension 3: what SetupTransformers installs on the pod informer (every pod event passes it)
+	txDev   cache.TransformFunc // … and on the Device informer
+	txInv   bool                // Device objects report some devices under deprecated resource names (an old koordlet): op dvtx
+}
+
+// the pod informer applies its transform to every object before a handler sees it
+func (c *c07EvCase) deliver(o interface{}) interface{} {
+	if c.txf == nil {
+		return o
+	}
+	out, err := c.txf(o)
+	if err != nil {
+		panic(err)
+	}
+	return out
+}
+
+func (c *c07EvCase) deliverDev(o interface{}) interface{} {
+	if c.txDev == nil {
+		return o
+	}
+	out, err := c.txDev(o)
+	if err != nil {
+		panic(err)
+	}
+	return out
 }
 
 // my own record of every live holder, as minor -> values
@@ -2776,9 +2815,15 @@ func (c *c07EvCase) decorateRsv(rv *schedulingv1alpha1.Reservation, deleting boo
 
 func (c *c07EvCase) evPodAdd(shape int, p *c07EvPod) {
 	h := c.h
+	if p.na != nil && shape == c07ShObj {
+		c.evPodTx(0, shape, p, false)
+		return
+	}
 	h.Op("evadd %d %d 1 0 %s", shape, p.id, p.g.tok())
 	before := c.cur
-	if h.Guard(func() { c.podH.OnAdd(c07Shaped(shape, c.decorate(c07EvPodObj(p.id, p.g, c07Node), false), "default/p"), false) }) {
+	if h.Guard(func() {
+		c.podH.OnAdd(c.deliver(c07Shaped(shape, c.decorate(c07EvPodObj(p.id, p.g, c07Node), false), "default/p")), false)
+	}) {
 		h.Obs("panic")
 		return
 	}
@@ -2807,6 +2852,10 @@ func (c *c07EvCase) evPodAdd(shape int, p *c07EvPod) {
 
 func (c *c07EvCase) evPodUpdate(so, sn int, p *c07EvPod, terminated bool) {
 	h := c.h
+	if p.na != nil && so == c07ShObj && sn == c07ShObj {
+		c.evPodTx(1, c07ShObj, p, terminated)
+		return
+	}
 	h.Op("evupd %d %d %d 1 1 %d %s %s", so, sn, p.id, vB(terminated), p.g.tok(), p.g.tok())
 	before := c.cur
 	mid := before
@@ -2818,7 +2867,7 @@ func (c *c07EvCase) evPodUpdate(so, sn int, p *c07EvPod, terminated bool) {
 		if terminated {
 			np.Status.Phase = corev1.PodSucceeded
 		}
-		c.podH.OnUpdate(c07Shaped(so, c.decorate(c07EvPodObj(p.id, p.g, c07Node), false), "default/p"), c07Shaped(sn, np, "default/p"))
+		c.podH.OnUpdate(c.deliver(c07Shaped(so, c.decorate(c07EvPodObj(p.id, p.g, c07Node), false), "default/p")), c.deliver(c07Shaped(sn, np, "default/p")))
 	}) {
 		h.Obs("panic")
 		return
@@ -2842,9 +2891,15 @@ func (c *c07EvCase) evPodUpdate(so, sn int, p *c07EvPod, terminated bool) {
 
 func (c *c07EvCase) evPodDelete(shape int, p *c07EvPod) {
 	h := c.h
+	if p.na != nil && (shape == c07ShObj || shape == c07ShTomb) {
+		c.evPodTx(2, shape, p, false)
+		return
+	}
 	h.Op("evdel %d %d 1 %s", shape, p.id, p.g.tok())
 	before := c.cur
-	if h.Guard(func() { c.podH.OnDelete(c07Shaped(shape, c.decorate(c07EvPodObj(p.id, p.g, c07Node), true), fmt.Sprintf("default/p%d", p.id))) }) {
+	if h.Guard(func() {
+		c.podH.OnDelete(c.deliver(c07Shaped(shape, c.decorate(c07EvPodObj(p.id, p.g, c07Node), true), fmt.Sprintf("default/p%d", p.id))))
+	}) {
 		h.Obs("panic")
 		return
 	}
@@ -3025,17 +3080,32 @@ func (c *c07EvCase) evDevice(kind, sa, sb int) {
 	dev := &schedulingv1alpha1.Device{ObjectMeta: metav1.ObjectMeta{Name: c07Node}}
 	invalidate := kind == 2
 	var toks []string
-	for _, d := range c.inv[0] {
-		minor := int32(d.minor)
-		dev.Spec.Devices = append(dev.Spec.Devices, schedulingv1alpha1.DeviceInfo{Type: c07Types[0], Minor: &minor, Health: d.healthy, Resources: c07RL(0, d.res), UUID: fmt.Sprintf("u-0-%d", d.minor)})
-		v := d.res
-		if !d.healthy || invalidate {
-			v = c07Absent
+	for t := 0; t < 3; t++ {
+		for _, d := range c.inv[t] {
+			minor := int32(d.minor)
+			rl := c07RL(t, d.res)
+			leg, cur := c07Absent, d.res
+			if c.txInv && c.r.Bool() { // this DeviceInfo is reported with deprecated names (all, or only some dimensions)
+				rl, leg, cur = c07LegacyRL(c.r, t, d.res)
+				h.Tag("tx:device-info-with-deprecated-names")
+			}
+			dev.Spec.Devices = append(dev.Spec.Devices, schedulingv1alpha1.DeviceInfo{Type: c07Types[t], Minor: &minor, Health: d.healthy, Resources: rl, UUID: fmt.Sprintf("u-%d-%d", t, d.minor)})
+			if !d.healthy || invalidate {
+				leg, cur = c07Absent, c07Absent
+			}
+			if c.txInv {
+				toks = append(toks, fmt.Sprintf("%d %d %s %s", t, d.minor, leg.tok(), cur.tok()))
+			} else {
+				toks = append(toks, fmt.Sprintf("%d %d %s", t, d.minor, cur.tok()))
+			}
 		}
-		toks = append(toks, fmt.Sprintf("0 %d %s", d.minor, v.tok()))
 	}
 	decoded := (kind == 0 && sa == c07ShObj) || (kind == 1 && sa == c07ShObj && sb == c07ShObj) || (kind == 2 && (sa == c07ShObj || sa == c07ShTomb))
-	h.Op("dvref %d %d %d %d %s", kind, sa, sb, len(toks), strings.Join(toks, " "))
+	if c.txInv {
+		h.Op("dvtx %d %d %d %d %s", kind, sa, sb, len(toks), strings.Join(toks, " "))
+	} else {
+		h.Op("dvref %d %d %d %d %s", kind, sa, sb, len(toks), strings.Join(toks, " "))
+	}
 	before := c.cur
 	if decoded {
 		c.noteRefresh(before, invalidate)
@@ -3047,11 +3117,11 @@ func (c *c07EvCase) evDevice(kind, sa, sb int) {
 	if h.Guard(func() {
 		switch kind {
 		case 0:
-			c.devH.OnAdd(c07Shaped(sa, dev, c07Node), false)
+			c.devH.OnAdd(c.deliverDev(c07Shaped(sa, dev, c07Node)), false)
 		case 1:
-			c.devH.OnUpdate(c07Shaped(sa, dev.DeepCopy(), c07Node), c07Shaped(sb, dev, c07Node))
+			c.devH.OnUpdate(c.deliverDev(c07Shaped(sa, dev.DeepCopy(), c07Node)), c.deliverDev(c07Shaped(sb, dev, c07Node)))
 		default:
-			c.devH.OnDelete(c07Shaped(sa, dev, c07Node))
+			c.devH.OnDelete(c.deliverDev(c07Shaped(sa, dev, c07Node)))
 		}
 	}) {
 		h.Obs("panic")
@@ -3393,7 +3463,16 @@ func TestVerifC07Events(t *testing.T) {
 		c.podH = podH
 		c.rsvH = reservationutil.NewReservationToPodEventHandler(podH, reservationutil.IsObjValidActiveReservation)
 		c.devH = cache.ResourceEventHandlerFuncs{AddFunc: c.cache.onDeviceAdd, UpdateFunc: c.cache.onDeviceUpdate, DeleteFunc: c.cache.onDeviceDelete}
+		c.txf, c.txDev = c07Transforms()
 		malformed := r.Chance(1, 4)
+		// extension 3: 1 case in 3 has pods whose device-allocated annotation was written with DEPRECATED resource names
+		// (kubernetes.io/gpu-core …, 1-3 GPU entries, optionally an RDMA entry, mixed with current names); the node then
+		// also reports RDMA devices
+		txCase := r.Chance(1, 3)
+		if txCase {
+			h.Tag("stream:deprecated-names")
+			c.txInv = true
+		}
 		if malformed {
 			h.Tag("stream:malformed-shapes")
 		} else {
@@ -3406,6 +3485,11 @@ func TestVerifC07Events(t *testing.T) {
 			c.inv[0] = append(c.inv[0], c07Dev{minor: perm[i], healthy: i < 2 || !r.Chance(1, 8), res: c07Vec{100, c.mem, 100}, numa: -1})
 		}
 		sort.Slice(c.inv[0], func(i, j int) bool { return c.inv[0][i].minor < c.inv[0][j].minor })
+		if txCase {
+			for i, k := 0, r.Range(1, 2); i < k; i++ {
+				c.inv[1] = append(c.inv[1], c07Dev{minor: i, healthy: true, res: c07Vec{100, -1, -1}, numa: -1})
+			}
+		}
 		early := r.Intn(8) // 0: a pod delete, 1: a pod add arrives before the node's Device object was ever seen
 		if early > 1 {
 			c.applyInventory(false)
@@ -3430,9 +3514,23 @@ func TestVerifC07Events(t *testing.T) {
 			if len(ms) > 1 && r.Chance(1, 4) {
 				k = 2
 			}
+			tx := txCase && r.Chance(2, 3)
+			if tx { // 1-3 GPU entries, half of the pods also hold an RDMA device
+				k = r.Range(1, 3)
+				if k > len(ms) {
+					k = len(ms)
+				}
+			}
 			pm := r.Perm(len(ms))
 			for i := 0; i < k; i++ {
 				g[0] = append(g[0], c07Alloc{minor: ms[pm[i]], vec: c.fracVec(int64(r.Pick([]int64{10, 10, 20, 25, 30})))})
+			}
+			if tx {
+				if len(c.inv[1]) > 0 && r.Bool() {
+					g[1] = []c07Alloc{{minor: c.inv[1][r.Intn(len(c.inv[1]))].minor, vec: c07Vec{int64(r.Pick([]int64{5, 10, 20})), -1, -1}}}
+				}
+				na := c07GenNAnn(r, g, malformed, h)
+				return &c07EvPod{id: id, g: na.sem(), rsv: rsvID, na: na}
 			}
 			return &c07EvPod{id: id, g: g, rsv: rsvID}
 		}
